@@ -68,4 +68,18 @@ def actOk (o : Box) : Action → Bool
   | .store t => Box.subset o t
   | .split l r => split2Ok o l r && !Box.isEmpty l && !Box.isEmpty r
 
+/-! ### a search resumed from a saved paving (C18): `Solver::start(const CovSolverData&)` -/
+
+/-- the cells a resumed search starts from: the boxes of the previous paving that are not validated (unknown, pending) -/
+def requeued (prev : List Item) : List Box := (prev.filter fun it => !it.validated).map (·.box)
+
+/-- state after `start(data)`: validated boxes are carried over (they stay in `prev`, see `resumedItems`), the others are
+    pushed one by one; the buffer lists them in the order of `Cover.St.openB` (last pushed first) -/
+def St.resume (prev : List Item) : St := ⟨(requeued prev).reverse, [], (requeued prev).map Ev.push⟩
+
+/-- the paving of a resumed run: the validated boxes of the previous paving, unchanged; the boxes stored by this run
+    (as unknown boxes: no verdict is claimed by the model) and the cells left in the buffer (pending boxes) -/
+def resumedItems (prev : List Item) (s : St) : List Item :=
+  prev.filter (·.validated) ++ s.stored.map (fun b => ⟨"U", b, b, [], false⟩) ++ s.buffer.map (fun b => ⟨"D", b, b, [], false⟩)
+
 end Ibex.SearchLoop
